@@ -1634,6 +1634,130 @@ theorem init_all (cfg : Cfg) (kind : Acc.Kind) (balance fee leverage : Rat) (m0 
   refine ⟨[], ?_, Or.inl rfl⟩
   simp [longOf, visible, AggLemmas.windows_nil]
 
+/-! ### the fast simulator: matching a minute that is not stored yet
+
+In the fast simulator a minute of the chunk is stored only when an order is executed in it (the partial candle) or when
+its matching is over.  The first PUBLISH of such a minute is NEW MINUTE + PUBLISH in one call. -/
+
+/-- NEW MINUTE + PUBLISH: the engine's partial-candle update with a candle that carries the NEXT minute's timestamp -/
+theorem publish_new_minute (e : Engine M) (sym : Nat) (c : Candle) (t0 : Int) (P : List Candle)
+    (hal : AlignedCfg e.cfg sym t0) (hi : EInv e sym t0 P) (hc : c.ts = t0 + 60000 * (P.length : Int)) :
+    EPre (updatePartialCandle e sym c) sym t0 c.ts P ∧
+    ∀ m ∈ tfsRaw e.cfg sym, StoreInv m (storeOf (updatePartialCandle e sym c) sym).short
+      (longOf (storeOf (updatePartialCandle e sym c) sym) m) := by
+  -- the state after the 1m write alone
+  have hp1 := new_minute_gives_pre e sym c t0 P hal hi hc
+  have hst := StoreFrame.storeOf_addCandle e sym 1 c hi.hs
+  simp only [if_true] at hst
+  have hsh1 : (storeOf (addCandle e sym 1 c) sym).short = P ++ [c] := by
+    obtain ⟨l, hl, _⟩ := hp1.last
+    have hd := hp1.pfx
+    have hne : (storeOf (addCandle e sym 1 c) sym).short ≠ [] := by intro h0; rw [h0] at hl; simp at hl
+    have := List.dropLast_append_getLast? l hl
+    rw [hd] at this
+    -- the last row is c
+    rw [hst] at hl ⊢
+    have hc0 : ¬ c.ts = 0 := by
+      rw [hc]; have : (0 : Int) ≤ (P.length : Int) := Int.natCast_nonneg _
+      have := hal.1; omega
+    have hadd : Store.addCandle (storeOf e sym).short c = P ++ [c] := by
+      rw [hi.short]
+      unfold Store.addCandle
+      simp only [hc0, if_false]
+      cases hl2 : P.getLast? with
+      | none => rfl
+      | some last =>
+        have hne2 : P ≠ [] := by intro h0; rw [h0] at hl2; simp at hl2
+        have hpos : 0 < P.length := List.length_pos_iff.mpr hne2
+        have hle : last = P[P.length - 1] := by
+          rw [List.getLast?_eq_getElem?, List.getElem?_eq_getElem (by omega)] at hl2
+          injection hl2 with h; exact h.symm
+        have hlts : last.ts = t0 + 60000 * ((P.length - 1 : Nat) : Int) := by rw [hle]; exact hi.spaced _ (by omega)
+        have hgt : c.ts > last.ts := by
+          rw [hc, hlts]
+          have : ((P.length - 1 : Nat) : Int) < (P.length : Int) := by exact_mod_cast (by omega : P.length - 1 < P.length)
+          omega
+        simp only [hgt, if_true]
+    exact hadd
+  have hX : ({ storeOf e sym with short := Store.addCandle (storeOf e sym).short c } : SymStore) = storeOf (addCandle e sym 1 c) sym := hst.symm
+  have hsp' : Spaced t0 (storeOf (addCandle e sym 1 c) sym).short := hp1.spaced
+  have hlast' : (storeOf (addCandle e sym 1 c) sym).short.getLast? = some c := by rw [hsh1]; simp
+  obtain ⟨r1, _, r3⟩ := pubFold_inv c t0 hal.1 (tfsRaw e.cfg sym) hal.2 (tfsRaw e.cfg sym) (fun m hm => hm)
+    (storeOf (addCandle e sym 1 c) sym) [] hsp' hlast' hp1.pre (by intro m hm; cases hm)
+  obtain ⟨hcfg, hlen⟩ := updatePartialCandle_cfg_len e sym c
+  have hres : storeOf (updatePartialCandle e sym c) sym =
+      (tfsRaw e.cfg sym).foldl (StoreFrame.pubStep c) (storeOf (addCandle e sym 1 c) sym) := by
+    rw [StoreFrame.updatePartialCandle_store e sym c hi.hs, hX]; rfl
+  have hne : (storeOf (addCandle e sym 1 c) sym).short ≠ [] := by rw [hsh1]; simp
+  refine ⟨⟨by rw [hlen]; exact hi.hs, ?_, ?_, ?_, ?_⟩, ?_⟩
+  · rw [hres, r1]; exact hp1.pfx
+  · rw [hres, r1]; exact hsp'
+  · rw [hres, r1]; exact ⟨c, hlast', rfl⟩
+  · intro m hm
+    rw [hcfg] at hm
+    rw [hres, r1]
+    exact pre_of_inv m _ _ (hal.2 m hm).1 hne (r3 m (by rw [List.nil_append]; exact hm))
+  · intro m hm
+    rw [hres, r1]
+    exact r3 m (by rw [List.nil_append]; exact hm)
+
+/-- the state of a symbol's store when minute `ts` is matched in the fast simulator: not stored yet, or stored -/
+inductive FPre (e : Engine M) (sym : Nat) (t0 ts : Int) (P : List Candle) : Prop
+  | fresh : EInv e sym t0 P → ts = t0 + 60000 * (P.length : Int) → FPre e sym t0 ts P
+  | stored : EPre e sym t0 ts P → FPre e sym t0 ts P
+
+theorem FPre.of_same {e e' : Engine M} {sym : Nat} {t0 ts : Int} {P : List Candle} (h : StoreFrame.SSame e e')
+    (hp : FPre e sym t0 ts P) : FPre e' sym t0 ts P := by
+  cases hp with
+  | fresh hi hc => exact FPre.fresh (EInv.of_same h hi) hc
+  | stored hp => exact FPre.stored (EPre.of_same h hp)
+
+/-- THE MATCHING LOOP OF THE FAST SIMULATOR keeps `FPre`, for every strategy -/
+theorem matchLoop_keeps_fpre (fuel : Nat) : ∀ (e : Engine M) (sym : Nat) (cur : Candle) (cands : List Nat)
+    (resel : Engine M → Candle → List Nat) (st : Bool) (t0 : Int) (P : List Candle),
+    AlignedCfg e.cfg sym t0 → FPre e sym t0 cur.ts P →
+    FPre (matchLoop u fuel e sym cur cands resel st).1 sym t0 cur.ts P ∧
+    (matchLoop u fuel e sym cur cands resel st).1.cfg = e.cfg := by
+  induction fuel with
+  | zero =>
+    intro e sym cur cands resel st t0 P _ hp; unfold matchLoop
+    refine ⟨FPre.of_same (StoreFrame.fail_ss _ _) hp, ?_⟩
+    unfold fail; split <;> rfl
+  | succ f ih =>
+    intro e sym cur cands resel st t0 P hal hp
+    unfold matchLoop
+    dsimp only
+    split
+    · exact ⟨hp, rfl⟩
+    · split
+      · exact ⟨hp, rfl⟩
+      · split
+        · refine ⟨FPre.of_same (StoreFrame.fail_ss _ _) hp, ?_⟩
+          unfold fail; split <;> rfl
+        · rename_i id0 _ _ a b hsplit
+          obtain ⟨ha, hb⟩ := split_ts _ _ _ _ hsplit
+          have hp1 : EPre (updatePartialCandle e sym a) sym t0 cur.ts P := by
+            cases hp with
+            | fresh hi hc =>
+              have := (publish_new_minute e sym a t0 P hal hi (by rw [ha]; exact hc)).1
+              rw [ha] at this; exact this
+            | stored hp0 => exact (publish_keeps_pre e sym a t0 cur.ts P hal hp0 ha).1
+          obtain ⟨hcfg1, _⟩ := updatePartialCandle_cfg_len e sym a
+          have hs2 : StoreFrame.SSame (updatePartialCandle e sym a)
+              (executeOrder u (if st = true then { setCurrentPrice (updatePartialCandle e sym a) sym a.c with time := a.ts + 60000 }
+                               else setCurrentPrice (updatePartialCandle e sym a) sym a.c) id0) := by
+            refine StoreFrame.SSame.trans ?_ (StoreFrame.executeOrder_ss u _ _)
+            split <;> exact ⟨rfl, rfl⟩
+          revert hs2
+          generalize executeOrder u (if st = true then { setCurrentPrice (updatePartialCandle e sym a) sym a.c with time := a.ts + 60000 }
+                               else setCurrentPrice (updatePartialCandle e sym a) sym a.c) id0 = e4
+          intro hs2
+          have hp2 := EPre.of_same hs2 hp1
+          have hcfg2 := hs2.2
+          rw [← hb] at hp2 ⊢
+          have := ih e4 sym b (resel e4 b) resel st t0 P (by rw [hcfg2, hcfg1]; exact hal) (FPre.stored hp2)
+          exact ⟨this.1, by rw [this.2, hcfg2, hcfg1]⟩
+
 end run
 
 end C07
